@@ -373,6 +373,12 @@ type refState struct {
 // refRun executes p sequentially. Accesses must be naturally aligned and in
 // bounds, otherwise the run is marked ill-formed (Err "bad access ...").
 func refRun(p rProg, regs [32]int32, mem []int8, maxSteps int, keepTrace bool) *refState {
+	return refRunU(p, regs, mem, maxSteps, keepTrace, false)
+}
+
+// refRunU is refRun with optional support for misaligned (still in-bounds) accesses; used only
+// by the cycle-accounting check on the unpipelined variants, which access memory byte by byte.
+func refRunU(p rProg, regs [32]int32, mem []int8, maxSteps int, keepTrace bool, allowUnaligned bool) *refState {
 	st := &refState{Regs: regs, Mem: append([]int8(nil), mem...), InitRegs: regs, InitMem: mem}
 	st.Regs[0] = 0
 	st.InitRegs[0] = 0
@@ -396,7 +402,7 @@ func refRun(p rProg, regs [32]int32, mem []int8, maxSteps int, keepTrace bool) *
 		var loaded []int8
 		if sz := accessSize(in.Op); sz != 0 {
 			addr := a + in.Imm
-			if addr < 0 || int(addr)+int(sz) > len(st.Mem) || addr%sz != 0 {
+			if addr < 0 || int(addr)+int(sz) > len(st.Mem) || (addr%sz != 0 && !allowUnaligned) {
 				st.Err = fmt.Sprintf("bad access %d/%d", addr, sz)
 				return st
 			}
